@@ -2,7 +2,10 @@
 // usage: h_vfs seq <seed> <nhist> <maxlen> <flags> <scratchdir>
 //   flags bit0: also query mj_containsBufferVFS with literal names that need path normalisation ("d1\\f", "./f", "a/../f")
 //         bit1: also mj_addFileVFS files that do not exist on disk (documented return: -1 failed to load)
-//         bit2: also delete a file while a resource opened on it is still open, then close the resource
+//         bit2: also delete a file while a resource opened on it is still open (informational, outside the C39 verdict: the
+//               statement has no memory-safety clause). The delete's return code is compared as usual, the event is counted
+//               (open_across_delete) and the history ENDS there: the stale resource and the VFS are abandoned (leaked) and never
+//               touched again, because mju_closeResource / mju_readResource / mj_deleteVFS would read the freed provider.
 // <scratchdir> must exist and be empty; the harness populates it with the disk files and chdir()s into it.
 // Reference: one dict keyed by the documented name normalisation (buffer names: path-reduced, case-sensitive;
 // file names: directory stripped and lower-cased; delete: exact name first, then stripped lower-case), values are
@@ -127,7 +130,7 @@ struct OpenRes { mjResource* r; std::set<std::string> bound; std::string content
 struct Stats {
   long hist = 0, nontrivial = 0, ops = 0, addbuf = 0, addfile = 0, repeated = 0, del_ok = 0, del_absent = 0, del_legacy = 0, contains = 0, opens = 0, open_exact = 0,
        open_legacy = 0, open_ambiguous = 0, open_disk = 0, open_none = 0, reads = 0, bytes = 0, kept_open = 0, deletevfs_open = 0, skipped_delete_open = 0, tolerated_crosskind = 0,
-       stale_closes = 0, missing_adds = 0, unnormalised_queries = 0, sweeps = 0;
+       stale_closes = 0, missing_adds = 0, unnormalised_queries = 0, sweeps = 0, open_across_delete = 0;
   std::map<std::string, long> cls;
 };
 
@@ -137,6 +140,7 @@ struct Hist {
   std::vector<OpenRes> open;
   Stats& st;
   long h; int step = 0;
+  bool abandoned = false;   // flag bit2: a file was deleted under an open resource; nothing of this VFS is touched any more
   explicit Hist(Stats& s, long hh) : st(s), h(hh) { mj_defaultVFS(&vfs); }
 
   std::string classify(const std::string& literal, const std::string& key) const {
@@ -214,9 +218,11 @@ struct Hist {
       int want = it != dict.end();
       st.contains++;
       if (got != want) {
+        // both unnormalised-name tags require the direction want=1/got=0 (a present buffer reported absent because the raw query
+        // string is looked up); a false positive (got=1, want=0) is a different defect and keeps the generic tag
         if (!normalised && want && !got && it->second.literal == lit)
           FAIL("contains-buffer-unnormalised-name:misses-the-literal-name-that-was-added", "hist %ld step %d: mj_addBufferVFS('%s') returned 0, mj_containsBufferVFS('%s') returns 0 (stored under '%s')", h, step, lit.c_str(), lit.c_str(), key.c_str());
-        else if (!normalised)
+        else if (!normalised && want && !got)
           FAIL("contains-buffer-unnormalised-name:equivalent-path-spelling", "hist %ld step %d: '%s' -> %d, reference (key '%s') %d", h, step, lit.c_str(), got, key.c_str(), want);
         else
           FAIL("contains-buffer-differs-from-reference", "hist %ld step %d: '%s' -> %d, reference %d", h, step, lit.c_str(), got, want);
@@ -350,11 +356,11 @@ static void run_history(uint64_t seed, long h, int maxlen, unsigned flags, Stats
         st.del_absent++; saw_absent_delete = true;
       }
       if (open_on_it) {
-        // flag bit2: the resource opened before the delete is only closed (memory safety is all that is required)
-        for (size_t i = 0; i < H.open.size();) {
-          if (H.open[i].stale) { st.stale_closes++; mju_closeResource(H.open[i].r); H.open.erase(H.open.begin() + i); }
-          else i++;
-        }
+        // flag bit2: the delete under an open resource was answered; end the history WITHOUT touching the stale resource or the VFS
+        st.open_across_delete++;
+        H.abandoned = true;
+        H.open.clear();
+        break;
       }
     } else if (r < 80) {
       // ---- mju_openResource / mju_readResource (/ keep open)
@@ -396,7 +402,7 @@ static void run_history(uint64_t seed, long h, int maxlen, unsigned flags, Stats
     }
     if (g_fail == 0 && !H.sweep(flags)) break;
   }
-  H.finish(true);
+  if (!H.abandoned) H.finish(true);
   st.hist++;
   if (saw_repeat && (saw_absent_delete || saw_delete)) st.nontrivial++;
 }
@@ -433,10 +439,10 @@ int main(int argc, char** argv) {
   for (long h = 0; h < nhist && g_fail == 0; h++) run_history(seed, h, maxlen, flags, st);
   printf("SUMMARY mode=seq flags=%u histories=%ld nontrivial=%ld ops=%ld addbuffer=%ld addfile=%ld repeated_adds=%ld deletes_ok=%ld deletes_legacy_name=%ld deletes_absent=%ld contains_queries=%ld "
          "opens=%ld open_exact=%ld open_legacy=%ld open_ambiguous=%ld open_disk=%ld open_none=%ld reads=%ld bytes_compared=%ld kept_open=%ld deletevfs_with_open=%ld skipped_delete_open=%ld "
-         "tolerated_crosskind=%ld stale_closes=%ld missing_file_adds=%ld unnormalised_contains_queries=%ld sweeps=%ld failures=%ld",
+         "tolerated_crosskind=%ld stale_closes=%ld missing_file_adds=%ld unnormalised_contains_queries=%ld sweeps=%ld open_across_delete=%ld failures=%ld",
          flags, st.hist, st.nontrivial, st.ops, st.addbuf, st.addfile, st.repeated, st.del_ok, st.del_legacy, st.del_absent, st.contains, st.opens, st.open_exact, st.open_legacy, st.open_ambiguous,
          st.open_disk, st.open_none, st.reads, st.bytes, st.kept_open, st.deletevfs_open, st.skipped_delete_open, st.tolerated_crosskind, st.stale_closes, st.missing_adds, st.unnormalised_queries,
-         st.sweeps, g_fail);
+         st.sweeps, st.open_across_delete, g_fail);
   for (auto& kv : st.cls) printf(" cls_%s=%ld", kv.first.c_str(), kv.second);
   printf("\n");
   return g_fail ? 1 : 0;
